@@ -7,9 +7,13 @@ package main
 // nothing in fields no key selects, nothing in padding, nothing behind a short array beyond its own zero fill.
 
 import (
+	stdjson "encoding/json"
 	"fmt"
 	"math/rand"
 	"reflect"
+	"runtime"
+	"sort"
+	"strconv"
 	"strings"
 	"unsafe"
 
@@ -223,5 +227,561 @@ func c07LayoutCases(o *Out) {
 		rs := strings.Join(ranges, ",")
 		o.hist("raw_layout_changed_ranges", fmt.Sprint(len(ranges)))
 		o.emit("A", "c07.stores", [][]byte{[]byte(lw.String()), []byte(dw.String()), []byte(fmt.Sprint(base)), []byte(rs)}, []byte("in"), nil, false)
+	}
+}
+
+// ---------- struct key matchers ----------
+//
+// Which field a member is stored into is decided by one of six matchers ( 8-bit bitmap for up to 8 names,
+// 16-bit bitmap for up to 16, the map for more names / names longer than 64 bytes / names outside ASCII; each
+// for the buffer and for the stream ), every one computing field addresses from its own table.  The fields sit
+// between canaries; names share prefixes, are prefixes of one another or differ in the last byte only; keys are
+// spelled exactly, in another case, with escapes, cut short, extended, or are unknown.  Demanded:
+//   - no canary changes,
+//   - a field whose name equals no key of the document under case folding ( strings.EqualFold: the widest
+//     reading, encoding/json's ) keeps its contents,
+//   - a field whose name is spelled exactly ( after unescaping ) by one member, and by case folding by no other,
+//     holds that member's value when the document is accepted.
+
+var c07kmTypes = []struct {
+	typ reflect.Type
+	val string
+}{
+	{reflect.TypeOf(uint8(0)), "7"}, {reflect.TypeOf(int16(0)), "-300"}, {reflect.TypeOf(uint32(0)), "70000"},
+	{reflect.TypeOf(""), `"new value"`}, {reflect.TypeOf([3]uint8{}), "[1,2,3]"}, {reflect.TypeOf(false), "false"},
+	{reflect.TypeOf(float64(0)), "1.5"}, {reflect.TypeOf([]int8{}), "[4,5]"}, {reflect.TypeOf((*int8)(nil)), "9"},
+}
+
+func c07kmNames(r *rand.Rand, family, nf, variant int) []string {
+	const letters = "abcdefghijklmnopqrstuvwxyz"
+	seen := map[string]bool{}
+	var out []string
+	add := func(s string) {
+		if s == "" || s == "-" || seen[s] {
+			return
+		}
+		seen[s] = true
+		out = append(out, s)
+	}
+	switch family {
+	case 0: // ladder: every name a prefix of the next
+		var b strings.Builder
+		for len(out) < nf {
+			c := letters[r.Intn(len(letters))]
+			if r.Intn(3) == 0 {
+				c -= 'a' - 'A'
+			}
+			b.WriteByte(c)
+			add(b.String())
+		}
+	case 1: // one common prefix, the names differ in their last bytes; the length walks over the limits of the matchers
+		l := []int{1, 2, 8, 16, 63, 64, 65, 100}[variant%8]
+		if l < 3 && nf > 30 {
+			l = 8
+		}
+		pre := make([]byte, l)
+		for i := range pre {
+			pre[i] = letters[r.Intn(len(letters))]
+			if r.Intn(4) == 0 {
+				pre[i] -= 'a' - 'A'
+			}
+		}
+		const last = "0123456789abcdefghijklmnopqrstuvwxyz"
+		for i := 0; len(out) < nf && i < 36*36; i++ {
+			n := append([]byte(nil), pre...)
+			n[l-1] = last[i%36]
+			if i >= 36 && l >= 2 {
+				n[l-2] = last[i/36]
+			}
+			add(string(n))
+		}
+	case 2: // short names over a tiny alphabet: some equal under case folding
+		for tries := 0; len(out) < nf && tries < 2000; tries++ {
+			n := make([]byte, 1+r.Intn(4))
+			for i := range n {
+				n[i] = "abAB01_"[r.Intn(7)]
+			}
+			add(string(n))
+		}
+	case 3: // names outside ASCII and with punctuation among plain ones
+		special := []string{"é", "É1", "naïve", "a b", "x.y", "ключ", "K2", "ſt", "日本", "a-b", "Ünï", "k2", "st", "a:b", "ÀÉ"}
+		r.Shuffle(len(special), func(i, j int) { special[i], special[j] = special[j], special[i] })
+		for i := 0; i < len(special) && len(out) < nf && i < 1+nf/2; i++ {
+			add(special[i])
+		}
+		for i := 0; len(out) < nf; i++ {
+			add(fmt.Sprintf("p%d", i))
+		}
+	default: // Go-like names
+		for i := 0; len(out) < nf; i++ {
+			add("Name" + strings.Repeat("x", r.Intn(3)) + strings.ToUpper(string(letters[i%26])) + string(letters[(i/26+r.Intn(3))%26]))
+		}
+	}
+	return out
+}
+
+// c07kmSpell gives the text of a key ( between the quotes ) and what it decodes to
+func c07kmSpell(r *rand.Rand, name string, how int) (lit, dec string) {
+	esc := func(rn rune) string {
+		if rn > 0xFFFF {
+			a, b := utf16Pair(rn)
+			return fmt.Sprintf(`\u%04x\u%04X`, a, b)
+		}
+		if r.Intn(2) == 0 {
+			return fmt.Sprintf(`\u%04X`, rn)
+		}
+		return fmt.Sprintf(`\u%04x`, rn)
+	}
+	rs := []rune(name)
+	switch how {
+	case 1:
+		return strings.ToLower(name), strings.ToLower(name)
+	case 2:
+		return strings.ToUpper(name), strings.ToUpper(name)
+	case 3: // one letter in the other case
+		i := r.Intn(len(rs))
+		c := rs[i]
+		if c >= 'a' && c <= 'z' {
+			rs[i] = c - 32
+		} else if c >= 'A' && c <= 'Z' {
+			rs[i] = c + 32
+		}
+		return string(rs), string(rs)
+	case 4: // one character escaped
+		i := r.Intn(len(rs))
+		return string(rs[:i]) + esc(rs[i]) + string(rs[i+1:]), name
+	case 5: // every character escaped
+		var b strings.Builder
+		for _, c := range rs {
+			b.WriteString(esc(c))
+		}
+		return b.String(), name
+	case 6: // cut short
+		return string(rs[:len(rs)-1]), string(rs[:len(rs)-1])
+	case 7: // extended
+		e := string("0aA_x"[r.Intn(5)])
+		return name + e, name + e
+	case 8: // one character replaced
+		i := r.Intn(len(rs))
+		rs[i] = []rune("zZ9_é")[r.Intn(5)]
+		return string(rs), string(rs)
+	case 9: // unknown, of a length around the limits
+		n := []int{0, 1, 5, 16, 63, 64, 65, 130, 600}[r.Intn(9)]
+		b := make([]byte, n)
+		for i := range b {
+			b[i] = "abcXYZ_0"[r.Intn(8)]
+		}
+		return string(b), string(b)
+	case 10: // the name followed by an escaped quote or backslash
+		if r.Intn(2) == 0 {
+			return name + `\"`, name + `"`
+		}
+		return name + `\\`, name + `\`
+	case 11: // an escaped quote first: the matcher has failed before it sees the name
+		return `\"` + name, `"` + name
+	}
+	return name, name
+}
+
+func utf16Pair(rn rune) (rune, rune) {
+	rn -= 0x10000
+	return 0xD800 + (rn>>10)&0x3FF, 0xDC00 + rn&0x3FF
+}
+
+func c07KeyMatcherCases(o *Out, decodeOnly bool) {
+	r := o.rng
+	nfs := []int{1, 2, 7, 8, 9, 10, 15, 16, 17, 18, 24, 40}
+	docsPer := 6
+	if o.tier == "thorough" {
+		docsPer = 60
+	}
+	for family := 0; family < 5; family++ {
+		for ni, nf := range nfs {
+			names := c07kmNames(r, family, nf, ni+5)
+			if len(names) == 0 {
+				continue
+			}
+			// the struct: canary, field, canary, ...
+			var fs []reflect.StructField
+			fs = append(fs, c07Canary(0, r))
+			ftyp := make([]int, len(names))
+			for i := range names {
+				ftyp[i] = r.Intn(len(c07kmTypes))
+				fs = append(fs, reflect.StructField{Name: fmt.Sprintf("F%02d", i), Type: c07kmTypes[ftyp[i]].typ,
+					Tag: reflect.StructTag(`json:` + strconv.Quote(names[i]))})
+				fs = append(fs, c07Canary(i+1, r))
+			}
+			st := reflect.StructOf(fs)
+			matcher := "bitmap8"
+			switch {
+			case family == 3:
+				matcher = "names outside ASCII"
+			case len(names) > 16:
+				matcher = "map(>16 names)"
+			case len(names[0]) > 64 || len(names[len(names)-1]) > 64:
+				matcher = "map(long name)"
+			case len(names) > 8:
+				matcher = "bitmap16"
+			}
+			foldUnique := make([]bool, len(names))
+			for i := range names {
+				foldUnique[i] = true
+				for j := range names {
+					if i != j && strings.EqualFold(names[i], names[j]) {
+						foldUnique[i] = false
+					}
+				}
+			}
+			for d := 0; d < docsPer; d++ {
+				type member struct {
+					lit, dec, val string
+					field         int // the field whose spelling this is, -1 unknown
+				}
+				var ms []member
+				m := 1 + r.Intn(6)
+				for k := 0; k < m; k++ {
+					fi := r.Intn(len(names))
+					how := []int{0, 0, 0, 1, 2, 3, 4, 5, 6, 7, 8, 9, 10, 11}[r.Intn(14)]
+					lit, dec := c07kmSpell(r, names[fi], how)
+					val := ""
+					for j := range names {
+						if strings.EqualFold(dec, names[j]) {
+							val = c07kmTypes[ftyp[j]].val
+							break
+						}
+					}
+					if val == "" {
+						fi = -1
+						val = []string{`1`, `"s"`, `[1,{"a":"}"}]`, `{"x":{"y":["]"]}}`, `null`, `"\\\""`}[r.Intn(6)]
+					}
+					ms = append(ms, member{lit, dec, val, fi})
+				}
+				var b strings.Builder
+				b.WriteString("{")
+				for k, mb := range ms {
+					if k > 0 {
+						b.WriteString(",")
+					}
+					b.WriteString(genWS(r) + `"` + mb.lit + `"` + genWS(r) + `:` + genWS(r) + mb.val)
+				}
+				b.WriteString(genWS(r) + "}")
+				c := &c07Case{typ: st, seed: r.Int63(), field: -1, doc: []byte(b.String()), addr: map[string]bool{}}
+				c.mode = []int{0, 0, 1, 3, 64, c07FullReads}[r.Intn(6)]
+				c07PickEntry(r, c)
+				c.failAt = -1
+				root := reflect.New(st)
+				if decodeOnly {
+					c07Init(root.Elem(), "root", nil, rand.New(rand.NewSource(c.seed)))
+					func() {
+						defer func() { recover() }()
+						c07Decode(c, root.Interface(), append([]byte(nil), c.doc...), false)
+					}()
+					c07Walk(root.Elem(), "root", 0)
+					o.count("child_key_matcher_cases", 1)
+					continue
+				}
+				tr := &c07Track{}
+				c07Init(root.Elem(), "root", tr, rand.New(rand.NewSource(c.seed)))
+				before := make([]string, len(names))
+				for i := range names {
+					before[i] = c07Snap(root.Elem().Field(2*i + 1))
+				}
+				o.current(c07Describe(c))
+				var err error
+				perr := safeCall(func() error { err = c07Decode(c, root.Interface(), append([]byte(nil), c.doc...), false); return nil })
+				o.count("key_matcher_cases", 1)
+				o.hist("key_matcher", matcher)
+				det := c07Describe(c)
+				det["names"] = clip(strings.Join(names, " | "))
+				det["matcher"] = matcher
+				if perr != nil {
+					det["panic"] = perr.Error()
+					o.violation("C07", "decoding panicked (struct key matching)", det)
+					continue
+				}
+				bad := ""
+				for _, cn := range tr.canaries {
+					for i, x := range unsafe.Slice((*byte)(cn.p), cn.n) {
+						if x != 0xA5 {
+							bad = fmt.Sprintf("canary %s byte %d of %d changed to %#x", cn.desc, i, cn.n, x)
+						}
+					}
+				}
+				if w := c07SafeWalk(root.Elem()); bad == "" && w != "" {
+					bad = "malformed destination: " + w
+				}
+				for i := range names {
+					if bad != "" {
+						break
+					}
+					now := c07Snap(root.Elem().Field(2*i + 1))
+					folds, exact, last := 0, 0, -1
+					for k, mb := range ms {
+						if strings.EqualFold(mb.dec, names[i]) {
+							folds++
+							last = k
+							if mb.dec == names[i] {
+								exact++
+							}
+						}
+					}
+					if folds == 0 {
+						if now != before[i] {
+							bad = fmt.Sprintf("field F%02d (name %q), named by no key of the document, changed: %s -> %s", i, names[i], clip(before[i]), clip(now))
+						}
+						o.count("key_matcher_fields_unaddressed", 1)
+						continue
+					}
+					if err == nil && folds == 1 && exact == 1 && foldUnique[i] {
+						want := reflect.New(c07kmTypes[ftyp[i]].typ)
+						stdjson.Unmarshal([]byte(ms[last].val), want.Interface())
+						if w := c07Snap(want.Elem()); now != w {
+							bad = fmt.Sprintf("field F%02d (name %q), spelled exactly by key %q, holds %s, not the member's value %s", i, names[i], ms[last].lit, clip(now), clip(w))
+						}
+						o.count("key_matcher_fields_exact_checked", 1)
+					}
+				}
+				if err != nil {
+					o.count("key_matcher_decode_err", 1)
+				}
+				if bad != "" {
+					det["detail"] = bad
+					o.violation("C07", bad, det)
+				}
+			}
+		}
+	}
+}
+
+// ---------- maps: the entries a document does not name ----------
+//
+// A map that already holds entries is decoded into: the members of the document replace or add entries, every
+// other entry is storage the document does not address.  The decoder assigns through the runtime's
+// mapassign_faststr and copies the value into the slot it returns ( string keys, values up to 128 bytes ) or
+// through reflect's mapassign ( other keys, larger values ): a copy of the wrong size lands in the neighbouring
+// slots of the bucket, i.e. in other entries.  Value sizes walk over 1..64 and around the 128-byte limit, the
+// number of entries over one bucket ( 8 ) and beyond, key types over string, a named string type and integers.
+// Oracle: entries not named keep their value; when both accept the document the whole map equals what
+// encoding/json makes of an identical twin ( values are byte arrays or plain structs, where the two agree ).
+
+type c07NamedKey string
+
+func c07MapSnap(m reflect.Value) string {
+	if m.IsNil() {
+		return "mnil"
+	}
+	var es []string
+	it := m.MapRange()
+	for it.Next() {
+		es = append(es, fmt.Sprintf("%v=%s", it.Key().Interface(), c07Snap(it.Value())))
+	}
+	sort.Strings(es)
+	return "m{" + strings.Join(es, " ") + "}"
+}
+
+func c07MapCases(o *Out, decodeOnly bool) {
+	r := o.rng
+	keyTypes := []reflect.Type{reflect.TypeOf(""), reflect.TypeOf(c07NamedKey("")), reflect.TypeOf(int(0)), reflect.TypeOf(uint8(0)), reflect.TypeOf(int64(0))}
+	sizes := []int{1, 2, 3, 4, 5, 7, 8, 9, 12, 15, 16, 17, 24, 31, 32, 33, 48, 63, 64, 65, 96, 120, 127, 128, 129, 130, 136, 200}
+	type vt struct {
+		typ  reflect.Type
+		k    int // length of the byte array in it
+		strc bool
+	}
+	var vts []vt
+	for _, k := range sizes {
+		vts = append(vts, vt{c07ByteElem(k), k, false})
+	}
+	for _, k := range []int{1, 8, 40, 103, 104, 105, 112} { // 16 + 8 + k bytes, rounded up to 8: 128 at k=104, 136 at 105
+		vts = append(vts, vt{reflect.StructOf([]reflect.StructField{{Name: "S", Type: reflect.TypeOf("")}, {Name: "P", Type: reflect.TypeOf((*int16)(nil))},
+			{Name: "B", Type: c07ByteElem(k)}}), k, true})
+	}
+	rounds := 1
+	if o.tier == "thorough" {
+		rounds = 12
+	}
+	keyOf := func(kt reflect.Type, i int) (reflect.Value, string) {
+		switch kt.Kind() {
+		case reflect.String:
+			s := "k" + strconv.Itoa(i)
+			return reflect.ValueOf(s).Convert(kt), s
+		case reflect.Uint8:
+			return reflect.ValueOf(uint8(i)), strconv.Itoa(i)
+		}
+		n := int64(i)
+		if i%3 == 2 {
+			n = -n
+		}
+		return reflect.ValueOf(n).Convert(kt), strconv.FormatInt(n, 10)
+	}
+	for round := 0; round < rounds; round++ {
+		for _, v := range vts {
+			for _, kt := range keyTypes {
+				mt := reflect.MapOf(kt, v.typ)
+				st := reflect.StructOf([]reflect.StructField{c07Canary(0, r), {Name: "M", Type: mt}, c07Canary(1, r), {Name: "N", Type: mt}, c07Canary(2, r)})
+				n0 := []int{-1, 0, 1, 3, 7, 8, 9, 20}[r.Intn(8)]
+				fill := func(root reflect.Value) {
+					for _, f := range []string{"M", "N"} {
+						if n0 < 0 {
+							continue
+						}
+						m := reflect.MakeMap(mt)
+						for i := 0; i < n0; i++ {
+							e := reflect.New(v.typ).Elem()
+							arr := e
+							if v.strc {
+								arr = e.Field(2)
+								e.Field(0).SetString(strings.Clone("old-" + strconv.Itoa(i)))
+								p := int16(i)
+								e.Field(1).Set(reflect.ValueOf(&p))
+							}
+							for j := 0; j < arr.Len(); j++ {
+								arr.Index(j).SetUint(uint64(0x80 + i))
+							}
+							kv, _ := keyOf(kt, i)
+							m.SetMapIndex(kv, e)
+						}
+						root.FieldByName(f).Set(m)
+					}
+					for _, f := range []string{"C00", "C01", "C02"} {
+						c := root.FieldByName(f)
+						for j := 0; j < c.Len(); j++ {
+							c.Index(j).SetUint(0xA5)
+						}
+					}
+				}
+				// the document: some of the old keys and some new ones
+				named := map[string]bool{}
+				var b strings.Builder
+				b.WriteString(`{"M":{`)
+				nm := r.Intn(6)
+				if r.Intn(8) == 0 {
+					nm = 10 + r.Intn(12)
+				}
+				for k := 0; k < nm; k++ {
+					if k > 0 {
+						b.WriteString(",")
+					}
+					i := r.Intn(24)
+					_, ks := keyOf(kt, i)
+					named[ks] = true
+					cnt := []int{0, 1, v.k - 1, v.k, v.k, v.k + 1}[r.Intn(6)]
+					if cnt < 0 {
+						cnt = 0
+					}
+					arr := "[" + strings.TrimSuffix(strings.Repeat(strconv.Itoa(1+k)+",", cnt), ",") + "]"
+					val := arr
+					if v.strc {
+						val = []string{`{"S":"new ` + ks + `","P":` + strconv.Itoa(k) + `,"B":` + arr + `}`, `{"B":` + arr + `}`, `{"S":"only s\n"}`, `{}`}[r.Intn(4)]
+					}
+					if r.Intn(9) == 0 {
+						val = "null"
+					}
+					b.WriteString(genWS(r) + `"` + ks + `":` + genWS(r) + val)
+				}
+				b.WriteString("}}")
+				doc := b.String()
+				if r.Intn(6) == 0 && len(doc) > 8 {
+					doc = doc[:6+r.Intn(len(doc)-6)]
+				}
+				c := &c07Case{typ: st, seed: 0, field: -1, doc: []byte(doc), addr: map[string]bool{}}
+				c.mode = []int{0, 0, 1, 5, c07FullReads}[r.Intn(5)]
+				c07PickEntry(r, c)
+				if strings.Contains(c07EntryName(c), "FirstWin") { // encoding/json has no such option; maps ignore it anyway
+					c.entry = 0
+				}
+				root := reflect.New(st)
+				fill(root.Elem())
+				if decodeOnly {
+					func() {
+						defer func() { recover() }()
+						c07Decode(c, root.Interface(), append([]byte(nil), c.doc...), false)
+					}()
+					c07Walk(root.Elem(), "root", 0)
+					o.count("child_map_cases", 1)
+					continue
+				}
+				det := c07Describe(c)
+				det["entries_before"] = strconv.Itoa(n0)
+				o.current(det)
+				var err error
+				perr := safeCall(func() error { err = c07Decode(c, root.Interface(), append([]byte(nil), c.doc...), false); return nil })
+				o.count("map_cases", 1)
+				o.hist("map_value_size", strconv.Itoa(int(v.typ.Size())))
+				o.hist("map_key_type", kt.String())
+				if perr != nil {
+					det["panic"] = perr.Error()
+					o.violation("C07", "decoding into a populated map panicked", det)
+					continue
+				}
+				bad := ""
+				for _, f := range []string{"C00", "C01", "C02"} {
+					cv := root.Elem().FieldByName(f)
+					for j := 0; j < cv.Len(); j++ {
+						if cv.Index(j).Uint() != 0xA5 {
+							bad = "canary " + f + " next to a map changed"
+						}
+					}
+				}
+				if w := c07SafeWalk(root.Elem()); bad == "" && w != "" {
+					bad = "malformed destination: " + w
+				}
+				if o.tier == "thorough" || o.Stats["map_cases"]%3 == 0 {
+					runtime.GC()
+				}
+				fresh := reflect.New(st)
+				fill(fresh.Elem())
+				if bad == "" && c07MapSnap(root.Elem().Field(3)) != c07MapSnap(fresh.Elem().Field(3)) {
+					bad = "the map N, which the document does not name, changed"
+				}
+				if bad == "" && n0 > 0 && !root.Elem().Field(1).IsNil() {
+					for i := 0; i < n0; i++ {
+						kv, ks := keyOf(kt, i)
+						if named[ks] {
+							continue
+						}
+						o.count("map_entries_unaddressed", 1)
+						got, want := root.Elem().Field(1).MapIndex(kv), fresh.Elem().Field(1).MapIndex(kv)
+						if !got.IsValid() {
+							bad = fmt.Sprintf("entry %s, which the document does not name, is gone", ks)
+						} else if c07Snap(got) != c07Snap(want) {
+							bad = fmt.Sprintf("entry %s, which the document does not name, changed: %s -> %s", ks, clip(c07Snap(want)), clip(c07Snap(got)))
+						}
+						if bad != "" {
+							break
+						}
+					}
+				}
+				if bad == "" && err == nil {
+					serr := c07Decode(c, fresh.Interface(), append([]byte(nil), c.doc...), true)
+					if serr == nil {
+						o.count("map_twin_compared", 1)
+						if g, w := c07MapSnap(root.Elem().Field(1)), c07MapSnap(fresh.Elem().Field(1)); g != w {
+							k := 0
+							for k < len(g) && k < len(w) && g[k] == w[k] {
+								k++
+							}
+							if k > 30 {
+								k -= 30
+							} else {
+								k = 0
+							}
+							bad = fmt.Sprintf("the map differs from encoding/json's on an identical twin: ...%s, encoding/json ...%s", clip(g[k:]), clip(w[k:]))
+						}
+					} else {
+						o.count("map_twin_std_rejects", 1)
+					}
+				}
+				if err != nil {
+					o.count("map_decode_err", 1)
+				}
+				if bad != "" {
+					det["detail"] = bad
+					det["value_type"] = v.typ.String()
+					det["key_type"] = kt.String()
+					o.violation("C07", bad, det)
+				}
+			}
+		}
 	}
 }
